@@ -86,21 +86,24 @@ def main():
     finally:
         shutil.rmtree(t, ignore_errors=True)
 
-    # run the checks against /repo with the patch applied
+    # run the checks against the patched tree.  Equivalent to `git -C /repo apply patch.diff; ./check ..;
+    # git -C /repo checkout -- .`, but on a scratch copy selected with MILA_REPO so that /repo is never
+    # touched while other checks are running (every tool reads the tree through assemble.REPO).
     outdir = tempfile.mkdtemp(prefix="mila-verif-seedout.", dir="/var/tmp")
     meta["checks"] = {}
-    p = subprocess.run(["git", "-C", REPO, "apply", "--whitespace=nowarn", "-"], input=patch, text=True, capture_output=True)
+    t2 = scratch()
+    p = subprocess.run(["git", "apply", "--whitespace=nowarn", "-"], input=patch, text=True, capture_output=True, cwd=t2)
     try:
         if p.returncode != 0:
-            meta["error"] = "patch does not apply to /repo: " + p.stderr
+            meta["error"] = "patch does not apply: " + p.stderr
         else:
             for c in checks:
-                rc, out = sh("./check %s --tier quick" % c, cwd=VERIF, env=dict(os.environ, MILA_OUT=outdir))
+                rc, out = sh("./check %s --tier quick" % c, cwd=VERIF, env=dict(os.environ, MILA_OUT=outdir, MILA_REPO=t2))
                 lines = [l for l in out.split("\n") if l.startswith(("VIOLATION", "  obligation", "UNDECIDED", "OK ", "KNOWN"))]
                 meta["checks"][c] = {"exit": rc, "output": lines[:12]}
-                meta["ran"].append("git -C /repo apply patch.diff; ./check %s --tier quick -> exit %d; git -C /repo checkout -- ." % (c, rc))
+                meta["ran"].append("patched copy of /repo (MILA_REPO): ./check %s --tier quick -> exit %d" % (c, rc))
     finally:
-        subprocess.run(["git", "-C", REPO, "checkout", "--", "."])
+        shutil.rmtree(t2, ignore_errors=True)
         shutil.rmtree(outdir, ignore_errors=True)
     meta["caught"] = any(v["exit"] == 1 for v in meta["checks"].values())
     finish(meta, name, patch, demo, notes)
